@@ -124,6 +124,18 @@ class Ctx:
                     d = d + pyth
                     od, oa = self.defof.get(other[0].get_id(), ([], other[2]))
                     self.defof[other[0].get_id()] = (list(od) + pyth, oa)
+            if fname in ("sin", "cos") and len(args) == 1 and z3.is_const(args[0]) and args[0].decl().name().startswith("atan!"):
+                # composition with an arctangent atom t = atan(u): cos t > 0, sin t = u cos t, cos^2 t (1 + u^2) = 1
+                ua = self.defof.get(args[0].get_id())
+                src = [e for e in self.atoms.values() if e[0].get_id() == args[0].get_id()]
+                if src:
+                    u = src[0][2][0]
+                    if fname == "cos":
+                        d = d + [v > 0, v * v * (1 + u * u) == 1]
+                    else:
+                        cs = self.atoms.get(("cos", args[0].get_id()))
+                        if cs is not None:
+                            d = d + [v == u * cs[0]]
             if fname == "tan" and len(args) == 1:
                 sn = self.atoms.get(("sin", args[0].get_id()))
                 cs = self.atoms.get(("cos", args[0].get_id()))
@@ -501,14 +513,22 @@ class SR:
     def radians(self):
         if self.c is not None:
             return SR(np.radians(self.c))
-        ctx().uses_pi = True
+        c = ctx()
+        c.uses_pi = True
+        hit = c.__dict__.setdefault("_deg_table", {}).get(simp(self.e).get_id())
+        if hit is not None:
+            return hit[1]                    # radians(degrees(x)) is x itself
         return SR(self.e * PI / 180)
 
     def degrees(self):
         if self.c is not None:
             return SR(np.degrees(self.c))
-        ctx().uses_pi = True
-        return SR(self.e * 180 * IPI)
+        c = ctx()
+        c.uses_pi = True
+        r = SR(self.e * 180 * IPI)
+        k = simp(r.e)
+        c.__dict__.setdefault("_deg_table", {})[k.get_id()] = (k, self)     # (the key term is kept alive: z3 re-uses ids of freed terms)
+        return r
 
     def item(self): return self
     def copy(self): return self
